@@ -39,9 +39,12 @@ class PollFuture(_Future):
 
         if delegate.cancelled():
             self._me_delegate_cancelled()
+            self._clear_delegate()
             return
         if delegate.exception():
             copy_future_exception(delegate, self)
+            # like every other path, don't keep the finished delegate alive
+            self._clear_delegate()
         else:
             self._executor._register_poll(self, self._delegate)
 
